@@ -133,6 +133,7 @@ class IdxE:
     const: Optional[int] = None
     succ: Any = None        # (kind, anchor, slack): the position right after the node just inserted here
     born: int = 0
+    pos: Any = None         # (depth, k>0): this value is the 0-based enumerate() counter of the loop at that depth
 
 
 @dataclass(frozen=True)
@@ -350,7 +351,7 @@ class State:
                 p, a = e.parent, e.anchor
                 k = ('i', e.kind, (mapping[p] if p in mapping else skey(p)) if p else None,
                      (mapping[a] if a in mapping else skey(a)) if a else None, e.delta, e.slack, e.const,
-                     (e.succ[0], (mapping[e.succ[1]] if e.succ[1] in mapping else skey(e.succ[1])) if e.succ[1] else None, e.succ[2]) if e.succ else None)
+                     (e.succ[0], (mapping[e.succ[1]] if e.succ[1] in mapping else skey(e.succ[1])) if e.succ[1] else None, e.succ[2]) if e.succ else None, e.pos)
             elif t is ListE and accum_before and e.kind == 'accum' and sym <= accum_before:
                 k = ('l', 'accum*', e.ordered, e.distinct, e.dirty)      # contents joined separately (union of templates)
             elif t is ListE:
@@ -388,6 +389,9 @@ class State:
                 mk.append((name, tuple(sorted((cs(a), cs(b)) for a, b in v.items() if a in mapping))))
             elif name == 'nth':
                 mk.append((name, tuple(sorted(((cs(a[1]),) + a[2:], cs(b)) for a, b in v.items() if a[1] in mapping and b in mapping))))
+            elif name == 'advbase':
+                mk.append((name, tuple(sorted((a, (b.kind, cs(b.parent) if b.parent else None, cs(b.anchor) if b.anchor else None, b.delta, b.slack))
+                                              for a, b in v.items()))))
             elif name == 'advsym':
                 mk.append((name, tuple(sorted((a, cs(b)) for a, b in v.items()))))
             elif name == 'itlog':
